@@ -287,7 +287,10 @@ func bagToTriples(m map[string]int) [][]any {
 	return out
 }
 
-var errPerm = fmt.Errorf("injected: %w", fs.ErrPermission)
+// a permission failure as the operating system reports it (os.IsPermission does not look through fmt.Errorf wrapping)
+var errPerm error = syscall.EACCES
+
+var _ = fs.ErrPermission
 var errIO = errors.New("injected: input/output error")
 
 // swTimeouts counts scans that did not return; after maxSwTimeouts of them the remaining runs are skipped
